@@ -331,6 +331,44 @@ def single_return(repo, cls, name):
     return m, fl, rets
 
 
+def as_boolean(e):
+    """conditional expressions read as the boolean expression they compute (c, X already expanded):
+        c if c else Y = c or Y ;  X if not X else Y = X and Y ;  True if c else Y = c or Y ;  False if c else Y = not c and Y ;
+        X if c else c = c and X ;  X if c else False = c and X.   Applied bottom-up; anything else is left as it is."""
+    def same(a, b):
+        return canon(a) == canon(b)
+
+    def neg(x):
+        return x.operand if isinstance(x, ast.UnaryOp) and isinstance(x.op, ast.Not) else ast.UnaryOp(op=ast.Not(), operand=x)
+
+    class T(ast.NodeTransformer):
+        def visit_Call(self, n):
+            n = self.generic_visit(n)
+            if call_name(n) == "__gamma__" and len(n.args) == 3:
+                return self.visit_IfExp(ast.IfExp(test=n.args[0], body=n.args[1], orelse=n.args[2]), visited=True)
+            return n
+
+        def visit_IfExp(self, n, visited=False):
+            if not visited:
+                n = self.generic_visit(n)
+            c, a, b = n.test, n.body, n.orelse
+            if same(a, b):
+                return a
+            if same(a, c) or (isinstance(a, ast.Constant) and a.value is True):
+                return ast.BoolOp(op=ast.Or(), values=[c, b])
+            if isinstance(c, ast.UnaryOp) and isinstance(c.op, ast.Not) and (same(a, c.operand) or (isinstance(a, ast.Constant) and a.value is False)):
+                return ast.BoolOp(op=ast.And(), values=[c.operand, b])
+            if isinstance(a, ast.Constant) and a.value is False:
+                return ast.BoolOp(op=ast.And(), values=[neg(c), b])
+            if same(b, c) or (isinstance(b, ast.Constant) and b.value is False):
+                return ast.BoolOp(op=ast.And(), values=[c, a])
+            if isinstance(c, ast.UnaryOp) and isinstance(c.op, ast.Not) and (same(b, c.operand) or (isinstance(b, ast.Constant) and b.value is True)):
+                return ast.BoolOp(op=ast.Or(), values=[c.operand, a])
+            return n
+    import copy as _c
+    return ast.fix_missing_locations(T().visit(_c.deepcopy(e)))
+
+
 def combined_return(m, fl):
     """the value of a function written with guard-clause returns as one (expanded) expression:
         `if c: return X` REST            ->  X if c else <REST>
@@ -352,7 +390,13 @@ def combined_return(m, fl):
         st = stmts[0]
         if isinstance(st, ast.Return):
             nd = node_of(st)
-            return fl.expand(st.value, nd) if st.value is not None and nd is not None else None
+            if st.value is None or nd is None:
+                return None
+            v = fl.expand(st.value, nd)
+            if "__phi__" in canon(v):
+                from ..rules import gexpand
+                v = as_boolean(gexpand(fl, st.value, nd))
+            return v
         if isinstance(st, (ast.Assign, ast.AnnAssign, ast.Expr, ast.Pass)) and not (isinstance(st, ast.Expr) and not isinstance(st.value, ast.Constant)):
             return go(stmts[1:])
         if isinstance(st, ast.If):
@@ -360,14 +404,17 @@ def combined_return(m, fl):
             if tn is None:
                 return None
             c = fl.expand(st.test, tn)
+            if "__phi__" in canon(c):
+                from ..rules import gexpand
+                c = as_boolean(gexpand(fl, st.test, tn))
             a = go(st.body + ([] if st.body and isinstance(st.body[-1], ast.Return) else stmts[1:]))
             b = go((st.orelse if st.orelse else []) + ([] if st.orelse and isinstance(st.orelse[-1], ast.Return) else stmts[1:]))
             if a is None or b is None:
                 return None
+            if same(a, b):
+                return a                  # both arms lead to the same (already path-combined) value
             if same(a, c) or (isinstance(a, ast.Constant) and a.value is True):
                 return ast.BoolOp(op=ast.Or(), values=[c, b])
-            if same(a, neg(c)) is True and False:
-                pass
             if isinstance(c, ast.UnaryOp) and isinstance(c.op, ast.Not) and (same(a, c.operand) or (isinstance(a, ast.Constant) and a.value is False)):
                 return ast.BoolOp(op=ast.And(), values=[c.operand, b])
             if isinstance(a, ast.Constant) and a.value is False:
@@ -404,7 +451,11 @@ def rule_agreement(ck, rid="C13.R4"):
                 raise AnalysisError(f"{cname}._valid_rate: expected a single return, found {len(rets)}")
             got = describe(ce, fl, rets[-1], cls, repo, pilot, atol_name, atol_default)
         else:
-            got = describe(fl.expand(rets[0].expr, rets[0]), fl, rets[0], cls, repo, pilot, atol_name, atol_default)
+            from ..rules import gexpand
+            ex0 = fl.expand(rets[0].expr, rets[0])
+            if "__phi__" in canon(ex0):
+                ex0 = as_boolean(gexpand(fl, rets[0].expr, rets[0]))     # a value chosen by guard clauses of an inlined helper
+            got = describe(ex0, fl, rets[0], cls, repo, pilot, atol_name, atol_default)
         adv_m, adv_fl, adv_rets = single_return(repo, cls, "allowable_pilot_signals")
         if len(adv_rets) != 1:
             raise AnalysisError(f"{cname}.allowable_pilot_signals: expected a single return")
